@@ -148,6 +148,11 @@ class Run:
     # -- finish ---------------------------------------------------------------
     def finish(self):
         self.cov["distinct_nontrivial"] = len(self._distinct)
+        # fail closed: cases on which the runner itself raised were never observed; silence about them must not read as agreement
+        self.cov["harness_op_failures"] = len(C.OUTER_ERRORS)
+        if C.OUTER_ERRORS and not any(p.endswith(f"{self.pid}-correspondence.json") for p, _ in self.violations):
+            self.violation({"correspondence": "an implementation-side runner raised before observing anything (a name the harness imports from xdis moved, or the harness is broken)",
+                            "count": len(C.OUTER_ERRORS), "first": [str(x)[:300] for x in C.OUTER_ERRORS[:3]]}, found_input=False, name=f"{self.pid}-correspondence.json")
         ev = {
             "property_id": self.pid,
             "tier": self.tier,
